@@ -32,13 +32,15 @@ def env(text, note, design, technique="Coq theorems on the executable envelope m
 
 CHECKS.update({
  "C01": env("Histories (any policy, caches, faults, revocations, rotations, restarts) are run on the real SDK and on the Coq envelope model; API results must agree, every genuine record must decrypt to its payload in "
-            "a live session and in an independent fresh-process reference decryptor, caller buffers must be unchanged.", "Partial: round-trip theorem over all histories is being proved; today the universal part is the model's "
-            "symbolic decrypt lemmas.", "6/C01"),
+            "a live session and in an independent fresh-process reference decryptor, caller buffers (incl. spare capacity, reused after the call) must be unchanged. PROVED over all histories (one service/product, default "
+            "key ids): the record a successful Encrypt returns decrypts to exactly the encrypted payload in another process that has only the metastore and the KMS (empty tables, caching off), at that moment "
+            "and at every later point of the history (cache-coherence invariant + symbolic execution of the cache-less Decrypt).",
+            "Partial: that a LIVE CACHED session returns the payload (keys in its caches are still open: reference-count/liveness invariant) is not a theorem; it is decided by the correspondence and the monitor.", "6/C01"),
  "C02": env("Fault plans (err / false duplicate / error-after-write on every metastore, KMS, AEAD, allocator call, singles and pairs) on cold/warm/rotating states: a returned record's IK row and SK row must be in the "
             "authoritative store at return and a fresh process must decrypt it; an unfaulted encrypt must succeed. PROVED over all histories (any fault plans, policies, evictions, restarts, revocations; one "
             "service/product, default key ids): every record ever returned names a stored intermediate key row whose parent system key row is stored, and is sealed so that those rows and the KMS open it "
             "(cache-coherence invariant through key_cache.go / envelope.go / session.go / session_cache.go, 2000 lines of Coq); the store only grows and only holds well-formed rows.",
-            "Not in the theorems: region-suffixed ids, several services in one metastore, 'once the faults stop the next operation succeeds' (monitor).", "6/C02"),
+            "The fresh-process clause is a theorem too (C02_fresh_process_decrypts). Not in the theorems: region-suffixed ids, several services in one metastore, 'once the faults stop the next operation succeeds' (monitor).", "6/C02"),
  "C03": env("AEAD/KMS/secret-factory call traces must equal the model's; payload sealed only under a data key generated in the same operation, data key used once, real (key, nonce) pairs unique, plaintext scan of rows/records/log lines/KMS traffic.",
             "Nonce/key freshness of crypto/rand is an assumption; the theorem is that the code asks for a fresh key and nonce every time.", "6/C03"),
  "C04": env("Boundary-clock histories: no record under an expired IK, no IK created under an expired SK (when no fault is injected), IK dropped within one interval of its SK's expiry.",
